@@ -152,8 +152,11 @@ def check(run, model, tier):
     n_pairs = 0
     other_fields = [a for a in fields if a not in (prio, seq)]
     for p1, s1, p2, s2 in itertools.product(dom, dom, dom, dom):
-        a = pureeval.Obj(**{prio: p1, **({seq: s1} if seq else {}), **{o: 'x' for o in other_fields}})
-        b = pureeval.Obj(**{prio: p2, **({seq: s2} if seq else {}), **{o: 'x' for o in other_fields}})
+        # the numbers are objects of their own (equal values that are not the same object: what a priority computed or parsed at run time is - CPython shares
+        # only small ints), so a comparison by identity where equality is meant shows
+        fresh = lambda v: int(str(v * 1000 + 7))
+        a = pureeval.Obj(**{prio: fresh(p1), **({seq: fresh(s1)} if seq else {}), **{o: 'x' for o in other_fields}})
+        b = pureeval.Obj(**{prio: fresh(p2), **({seq: fresh(s2)} if seq else {}), **{o: 'x' for o in other_fields}})
         got = bool(pureeval.call(lt.node, [a, b]))
         want = (p1, s1) < (p2, s2)
         n_pairs += 1
